@@ -117,4 +117,17 @@ def empty_optional(sid, args):
     return _value_has_empty_optional(e.t, e.mk(**slots))
 
 
-HELPERS = {"empty_optional": empty_optional, "stray_eoo": stray_eoo, "has_expl_leaf": has_expl_leaf, "has_kind": has_kind}
+def interior_zero(flen, *digits):
+    """Some '0' among the first flen fraction digits is followed, within them, by a non-zero digit."""
+    seen_zero = False
+    for i, d in enumerate(digits):
+        if i >= flen:
+            break
+        if d == 0:
+            seen_zero = True
+        elif seen_zero:
+            return True
+    return False
+
+
+HELPERS = {"interior_zero": interior_zero, "empty_optional": empty_optional, "stray_eoo": stray_eoo, "has_expl_leaf": has_expl_leaf, "has_kind": has_kind}
